@@ -1,6 +1,7 @@
 package spec
 
 import (
+	"bytes"
 	"strings"
 	"verif/sim/core"
 )
@@ -16,6 +17,7 @@ type GenOpt struct {
 	BodyNoNul bool // message bodies without NUL
 	FixedSeq  bool // sequence numbers given by the caller
 	Shape     int  // 0 mixed; 1 every variable-length field at its minimum (the smallest image of the type); 2 every one at its maximum
+	Twin      int  // > 0: two text fields of the PDU get the SAME value (which two is a function of the number): the payer is the recipient, the sender is the service number; draws nothing from the tape
 }
 
 var intEdges = map[int][]uint64{
@@ -318,6 +320,9 @@ func Gen(c *core.Chooser, p *PDU, o GenOpt) *Msg {
 		}
 		break
 	}
+	if o.Twin > 0 {
+		twinFields(m, o.Twin)
+	}
 	if o.Shape == 0 && !o.BodyNoNul && c.Prob(1, 10) {
 		codedBody(c, m)
 	}
@@ -328,6 +333,52 @@ func Gen(c *core.Chooser, p *PDU, o GenOpt) *Msg {
 		reportBody(c, m)
 	}
 	return m
+}
+
+// twinFields gives two text-like slots of one PDU the same value - independent generators never do that, real
+// traffic does it all the time (the number that pays is the number that receives, the source is the service id).
+// A single-entry destination list counts as a slot. The value must fit the slot it is copied to.
+func twinFields(m *Msg, k int) {
+	type slot struct {
+		get   func() []byte
+		set   func([]byte)
+		width int
+	}
+	var slots []slot
+	for _, f := range m.PDU.Fields {
+		f, v := f, m.F[f.Name]
+		if v == nil {
+			continue
+		}
+		switch f.Kind {
+		case KStr:
+			if v.Raw == nil {
+				slots = append(slots, slot{func() []byte { return v.B }, func(b []byte) { v.B = b }, f.Width})
+			}
+		case KCStr:
+			slots = append(slots, slot{func() []byte { return v.B }, func(b []byte) { v.B = b }, f.Width - 1})
+		case KRep:
+			if len(v.L) == 1 {
+				slots = append(slots, slot{func() []byte { return v.L[0] }, func(b []byte) { v.L[0] = b }, f.Width})
+			}
+		}
+	}
+	if len(slots) < 2 {
+		return
+	}
+	for try := 0; try < len(slots)*len(slots); try++ {
+		ia, ib := (k+try)%len(slots), (k/len(slots)+try/len(slots)+1+k+try)%len(slots)
+		a, b := slots[ia], slots[ib]
+		src := a.get()
+		if ia == ib || len(src) == 0 || len(src) > b.width || bytes.IndexByte(src, 0) >= 0 {
+			continue
+		}
+		if string(b.get()) == string(src) {
+			continue
+		}
+		b.set(append([]byte(nil), src...))
+		return
+	}
 }
 
 // codedBody makes the body what its data-coding field says: a short text in that coding (UTF-16BE for the UCS-2
